@@ -424,5 +424,22 @@ func c07Seed(r *R) {
 			}
 		}
 		r.c.Floor(x.rule, n, 1, "map insertions in "+x.recv+".getValue")
+		// the durable read that seeds the cell happens under the same write lock
+		// (otherwise a limit / progress change made while the read is in flight is
+		// overwritten by the stale value when the cell is installed)
+		nr := 0
+		for _, ci := range core.CallSites(fn) {
+			c := ci.Common()
+			if c.IsInvoke() || c.StaticCallee() != nil {
+				continue
+			}
+			if pv, ok := c.Value.(*ssa.Parameter); ok {
+				nr++
+				lk := "channels." + x.recv + ".lk"
+				r.c.Check(held[ci][lk+"/W"], x.rule, x.recv+".getValue/seed-read", r.p.InstrPos(ci), "durable seed read under the write lock",
+					"the durable state that seeds the cache ("+pv.Name()+") is read without holding the write lock "+lk+": the value installed afterwards can be stale")
+			}
+		}
+		r.c.Floor(x.rule, nr, 1, "durable seed reads in "+x.recv+".getValue")
 	}
 }
